@@ -41,6 +41,8 @@ def generate(seed, tier):
             plan['policy'] = 'straddle'
     cfg = S.gen_config(g, total)
     scn = {'api': g.pick(['sync', 'async']), 'transport': 'mem', 'device': d, 'config': cfg, 'actors': [[S.timeouts(g, {'op': 'connect'})] + ops], 'object': {'banner': 'simhost'}}
+    if g.chance(0.08):
+        d['wrte_zero'] = True       # legacy adbd: reply WRITEs carry remote id 0; they are acknowledged on the stream's real ids
     if g.chance(0.15):
         cfg['log_debug'] = True      # names are bytes: what the log level is must not matter
     if g.chance(0.15):
